@@ -255,8 +255,13 @@ func c17Exec(cs c17Case, c *explore.Chooser) core.Outcome {
 				res.tree = snapshotNode(df)
 				r := decorator.NewRestorerWithImports(localPath, simple.New(stdNames))
 				var buf bytes.Buffer
-				if e := r.Fprint(&buf, df); e != nil {
-					err = fmt.Errorf("printing the decorated tree: %w", e)
+				if pp := guard(func() {
+					if e := r.Fprint(&buf, df); e != nil {
+						err = fmt.Errorf("printing the decorated tree: %w", e)
+					}
+				}); pp != "" {
+					// a tree came back without an error but cannot even be printed
+					res.tree += "|unprintable: " + pp
 				}
 				res.out = buf.String()
 			} else if df != nil && err != nil && cs.Mode != "parse-goast" {
